@@ -50,7 +50,7 @@ impl Drop for C08 {
 
 pub const ARG_CLASSES: &[&str] = &[
     "nil", "true", "false", "0", "1", "-1", "small", "2^63", "2^64", "i128max", "i128min", "isize-min", "isize-max", "usize-max", "real", "nan", "inf", "neg-real",
-    "empty-str", "str", "str-75-multibyte", "num-str", "empty-bits", "bits-aligned", "bits-odd", "bits-sliced", "empty-vec", "vec", "vec-nested", "vec-long", "empty-map",
+    "empty-str", "str", "str-75-multibyte", "num-str", "hexish-str", "empty-bits", "bits-aligned", "bits-odd", "bits-sliced", "empty-vec", "vec", "vec-nested", "vec-long", "empty-map",
     "map", "tagged-int", "tagged-fmt-handmade", "tagged-str", "read-result", "fun",
 ];
 
@@ -92,6 +92,14 @@ impl C08 {
             "str" => Cell::from(rng.pick_str(&["a", "abc def", "caf\u{e9}", "\u{4e16}\u{754c}", "12", "ff", "1.5", "-", "\n", "\"", "QUJD", "#fmt", "offset"])),
             "str-75-multibyte" => Cell::from(long_multibyte(rng).as_str()),
             "num-str" => Cell::from(rng.pick_str(&["255", "-1", "1e400", "1.5.5", "0x10", "", "99999999999999999999999999999999999999999", "1_0", ".", "+"])),
+            "hexish-str" => {
+                // hex digits, blanks of every kind (ASCII and multi-byte) and characters that are neither
+                let mut t = String::new();
+                for _ in 0..1 + rng.below(8) {
+                    t.push_str(rng.pick_str(&["a", "F", "0", "12", "g", "z", " ", "\t", "\u{a0}", "\u{2003}", "\u{3000}", "\u{e9}", "\n", "x", ".", "|"]));
+                }
+                Cell::from(t.as_str())
+            }
             "empty-bits" => Cell::Bitstr(Xbitstr::new()),
             "bits-aligned" => {
                 let n = 1 + rng.below(40);
@@ -339,12 +347,31 @@ impl C08 {
         let mut s = String::new();
         for _ in 0..1 + rng.below(30) {
             match rng.below(24) {
-                0..=9 => s.push_str(&self.words[rng.below(self.words.len())].0),
+                0..=9 => {
+                    // words whose argument is an allocation size only appear with a modest literal size in soups
+                    // (fragments below); with whatever happens to be on the stack they would not be "modest"
+                    let mut w = &self.words[rng.below(self.words.len())].0;
+                    while ALLOC_SIZE_WORDS.contains(&w.as_str()) {
+                        w = &self.words[rng.below(self.words.len())].0;
+                    }
+                    s.push_str(w)
+                }
                 10 | 11 => s.push_str(rng.pick_str(&["0", "1", "-1", "9223372036854775807", "9223372036854775808", "18446744073709551615", "18446744073709551616", "170141183460469231731687303715884105727", "-170141183460469231731687303715884105728", "170141183460469231731687303715884105728", "0x7fffffffffffffff", "0b1", "-0", "1.5", "1e309.0", "255", "8", "64", "128", "129"])),
                 12 => s.push_str(rng.pick_str(&["12x", "0x", "1.2.3", "\"unterminated", "|12 3", "|1G|", "\"bad\\q\"", "\"glued\"x", "\\( open", "0b2", "--1"])),
                 13 => s.push_str(rng.pick_str(&["\"s\"", "\"caf\u{e9}\"", "\"\"", "|FF|", "||", "|x.x|", "[ 1 2 ]", "{ 1 \"k\" }", "nil", "true", "[ ]", "{ }"])),
                 14 => s.push_str(rng.pick_str(&["\u{e9}", "\u{4e16}\u{754c}", "\u{1f600}", "\u{a0}", "\u{2028}", "\u{301}"])),
-                15 => s.push_str(&format!("\"{}\"", long_multibyte(rng))),
+                15 => {
+                    if rng.flip() {
+                        s.push_str(&format!("\"{}\"", long_multibyte(rng)))
+                    } else {
+                        // text-decoding words on strings with multi-byte blanks and junk
+                        let mut t = String::new();
+                        for _ in 0..1 + rng.below(6) {
+                            t.push_str(rng.pick_str(&["a", "F", "0", "g", " ", "\u{a0}", "\u{2003}", "\u{e9}", "=", "#"]));
+                        }
+                        s.push_str(&format!("\"{}\" {}", t, rng.pick_str(&["hex>bitstr", "base32>", "base64>", "zero85>", "base32hex>", "str>number", ">bitstr"])))
+                    }
+                }
                 16 => s.push_str(rng.pick_str(&[": w", ";", "#(", "#)", "~)", "[", "]", "{", "}", "^{", "^}", "if", "else", "then", "begin", "until", "while", "repeat", "do", "loop", "case", "of", "endof", "endcase", "break", "foreach"])),
                 17 => s.push_str(rng.pick_str(&["let", "let [", "let {", "let ^", "&", "local x", "var v", "! v", "const K", "late f", "enum E", "endenum", ":", "=", "immediate", "defined", "see dup", "<name>"])),
                 18 => s.push_str(rng.pick_str(&["\\ comment", "\\( c \\)", "\\(", "\\)", "\\"])),
@@ -352,7 +379,7 @@ impl C08 {
                 20 => s.push_str(rng.pick_str(&["^hex", "^bin", "^oct", "^dec", "true fmt/prefix", "true fmt/upcase", "true fmt/tags", "nil fmt/tags"])),
                 21 => s.push_str(rng.pick_str(&["u8", "16 bits", "8 seek", "18446744073709551615 uint", "0 int", "129 int", "remain", "offset", "input", "dump", "0 dump-at", "99 dump-at", "|00| find", "|12| magic", "cstr", "nulbytestr", "close-bitstr", "open-bitstr"])),
                 22 => s.push_str(rng.pick_str(&["depth", "dup", "drop", "swap", "over", "rot", "print", "println", ".s", "newline"])),
-                _ => s.push_str(rng.pick_str(&["1 0 /", "1 0 rem", "-170141183460469231731687303715884105728 -1 /", "-170141183460469231731687303715884105728 abs", "[ 1 ] -9223372036854775808 nth", "\"ff\" ^hex str>number", "1 128 bsl", "1 -1 bsr", "99999 random-bits drop", "1 65536 int! drop"])),
+                _ => s.push_str(rng.pick_str(&["1 0 /", "1 0 rem", "-170141183460469231731687303715884105728 -1 /", "-170141183460469231731687303715884105728 abs", "[ 1 ] -9223372036854775808 nth", "\"ff\" ^hex str>number", "1 128 bsl", "1 -1 bsr", "99999 random-bits drop", "1 65536 int! drop", "-1 3 uint! drop", "3 4 d2-resize", "0 0 d2-resize", "7 random-bits"])),
             }
             s.push_str(rng.pick_str(&[" ", " ", " ", "\n", "\t", "\r\n", ""]));
         }
